@@ -1,9 +1,9 @@
 (* Props/C12.v — symmetric-QSP protocol: phase layout, response and Jacobian. *)
 From Coq Require Import ZArith QArith Qreals List Reals Bool.
-From Coquelicot Require Import Complex.
+From Coquelicot Require Import Complex Hierarchy Derive.
 From PyqspV Require Import Base.Ops Base.IntervalZ Model.LPolyM Model.LAlgM Model.QInst Model.ResponseM Model.SymQspM Model.Checkers
   Theory.RingK Theory.LPolyT Theory.LAlgT Theory.RelT Theory.CplxT Theory.RespT Theory.QC Theory.CertT Theory.C01T Theory.C06T
-  Theory.CornerT Theory.SymQspT Theory.SymCertT Theory.DualT.
+  Theory.CornerT Theory.SymQspT Theory.SymCertT Theory.DualT Theory.JacT.
 Import ListNotations.
 
 Section Layout.
@@ -53,3 +53,24 @@ Theorem C12_function_run_is_perturbed_element (l : list (Q * nat)) gF d :
   exists gR, la_from_angles OpsR (map (fun pm => leafR d (fst pm) (snd pm)) l) = Some gR /\ la_rel (at_d d) gF gR.
 Proof. exact (function_run_pointwise l gF d). Qed.
 Print Assumptions C12_function_run_is_perturbed_element.
+
+(* the Jacobian columns, end to end: row j of column k is the derivative at 0 of the function
+   d |-> (coefficient of T_{2j+parity} of Im <0|U|0> for the full phases  full_i + w_i d),  w = d full / d red_k *)
+Theorem C12_jacobian_column_certificate odd red k col tol : check_jac_df_col odd red k col tol = true ->
+  exists full gF sF, sym_full_q odd red = Some full /\
+    la_from_angles OpsF (map (fun pm => leafF (fst pm) (snd pm)) (perturbed odd red k full)) = Some gF /\
+    lp_add OpsF (la_X gF) (lp_inv OpsF (la_X gF)) = Some sF /\
+    length col = length red /\
+    forall j, (j < length red)%nat ->
+      exists v, Coquelicot.Derive.is_derive (entryF sF odd j) 0%R v /\ (Rabs (v - Q2R (nth j col 0%Q)) <= Q2R tol)%R.
+Proof. exact (jac_df_col_sound odd red k col tol). Qed.
+Print Assumptions C12_jacobian_column_certificate.
+
+Theorem C12_jacobian_entry_is_exact_coefficient (l : list (Q * nat)) gF sF odd j d :
+  la_from_angles OpsF (map (fun pm => leafF (fst pm) (snd pm)) l) = Some gF ->
+  lp_add OpsF (la_X gF) (lp_inv OpsF (la_X gF)) = Some sF ->
+  exists gR sR, la_from_angles OpsR (map (fun pm => leafR d (fst pm) (snd pm)) l) = Some gR /\
+    lp_add OpsR (la_X gR) (lp_inv OpsR (la_X gR)) = Some sR /\
+    entryF sF odd j d = entryR sR odd j.
+Proof. exact (jac_entry_pointwise l gF sF odd j d). Qed.
+Print Assumptions C12_jacobian_entry_is_exact_coefficient.
